@@ -108,9 +108,12 @@ fn bigcell_one(nshell: usize, ring: bool, rng: &mut Rng) -> String {
         gens[0] = c - DVec3::new(0., 0., 0.05);
         gens.push(c + DVec3::new(0., 0., 0.05));
         let phase = rng.f64();
+        // a ring generator contributes an edge only if its radial jitter stays below (angular spacing)^2 / 2
+        let delta = std::f64::consts::TAU / nshell as f64;
+        let jitter = (0.4 * delta * delta).min(1e-4);
         for i in 0..nshell {
             let a = (i as f64 + phase) / nshell as f64 * std::f64::consts::TAU;
-            gens.push(c + DVec3::new(a.cos(), a.sin(), 0.) * 0.3 * (1.0 + 1e-4 * (rng.f64() - 0.5)));
+            gens.push(c + DVec3::new(a.cos(), a.sin(), 0.) * 0.3 * (1.0 + jitter * (rng.f64() - 0.5)));
         }
     } else {
         // Fibonacci lattice on the sphere + jitter: evenly spread, every shell generator is a neighbour of the centre
